@@ -2228,8 +2228,14 @@ def preprocess_file(
         pp_defs = {}
     if include_dirs is None:
         include_dirs = set()
+    # Search the directory of the including file first, then the others in a
+    # fixed order (a set would be searched in hash seed dependent order). This is
+    # a copy: the caller's set (the server wide one when a document is parsed on
+    # open/change) must not grow with every file that is parsed.
+    own_dir = []
     if file_path is not None:
-        include_dirs.add(os.path.abspath(os.path.dirname(file_path)))
+        own_dir = [os.path.abspath(os.path.dirname(file_path))]
+    include_dirs = own_dir + sorted(d for d in include_dirs if d not in own_dir)
     pp_skips = []
     pp_defines = []
     pp_stack = []
